@@ -11,7 +11,7 @@ EXTENDS FeatGraph, TLC
 CONSTANTS MaxNodes,     \* operator nodes per architecture
           Widths,       \* channel widths of defining layers
           Dim, C0, Sp0, \* 1|2, input channels, input spatial size
-          AllowExcl, AllowCat3, AllowFindings   \* BOOLEAN switches of the grammar / of the Supported() guard
+          AllowExcl, AllowCat3, AllowReuse, AllowFindings   \* BOOLEAN switches of the grammar / of the Supported() guard
 
 VARIABLES arch, phase, f
 
@@ -40,7 +40,15 @@ CattPairs(a) == {pq \in Pairs(a) : pq[1] < pq[2] /\ Ch(a, pq[1]) = Ch(a, pq[2])
                                       /\ ~IsFlat(a, pq[1]) /\ ~IsFlat(a, pq[2])}
 Excl == IF AllowExcl THEN BOOLEAN ELSE {FALSE}
 
+\* call an earlier searchable, non-depthwise conv again on another tensor of the same input shape
+ReuseCands(a) ==
+    {[a.nodes[m] EXCEPT !.ins = <<p>>, !.reuse = m] :
+        m \in {x \in 1..N(a) : Op(a, x) = "conv" /\ ~a.nodes[x].dw /\ ~a.nodes[x].excl /\ a.nodes[x].reuse = 0},
+        p \in NF(a)} 
+ValidReuse(a, nd) == nd.ins[1] # a.nodes[nd.reuse].ins[1] /\ Ch(a, nd.ins[1]) = Ch(a, a.nodes[nd.reuse].ins[1])
+
 Candidates(a) ==
+    (IF AllowReuse THEN {nd \in ReuseCands(a) : ValidReuse(a, nd)} ELSE {}) \cup
     {Node("conv", <<p>>, w, FALSE, e) : p \in NF(a), w \in Widths, e \in Excl}
     \cup {Node("conv", <<p>>, 0, TRUE, FALSE) : p \in NF(a)}
     \cup {Node("lin", <<p>>, w, FALSE, e) : p \in T(a) \ NF(a), w \in Widths, e \in Excl}
